@@ -439,6 +439,7 @@ def _mkind(m): return 'none' if m is None else 'scalar' if 'scalar' in m else f"
 
 def signature(c):
     k = c['kind']
+    if k == 'onefield': return 'onefield ' + json.dumps({x: y for x, y in c.items() if x != 'kind' and not x.startswith('_')}, sort_keys=True)
     if k == 'views0': return 'views0 ' + json.dumps({x: y for x, y in c.items() if x != 'kind'}, sort_keys=True)
     if k == 'pchain':
         return 'pchain ' + ' | '.join(('prop ' + str(e['shape']) + 'x' + str(e['os']) + ' ' + str(e['prop_shape'])) if e['kind'] == 'propagate' else
@@ -451,6 +452,7 @@ def signature(c):
 
 def nontrivial(c):
     k = c['kind']
+    if k == 'onefield': return True
     if k == 'views0': return c['sub'] != 'fresh' or c['ndefault'] > 0
     if k == 'pchain': return True
     if k == 'px': return c['a'] is not None or c['b'] is not None
@@ -466,6 +468,7 @@ def _boxes_overlap(pl):
 def tags(c):
     k = c['kind']
     t = [k]
+    if k == 'onefield': return t + ['onefield:' + ('origin' if c['off'] == [0, 0] else 'off-centre')]
     if k == 'views0': return t + ['views0:' + c['sub']]
     if k == 'pchain':
         ks = [e['kind'] for e in c['elements']]
@@ -589,8 +592,22 @@ def _run_views0(c):
     r = w.insert(out, c['weight'])
     return {'field': cx(w.field), 'intensity': float(w.intensity), 'insert': float(r), 'fshape': list(np.shape(w.field)), 'ishape': list(np.shape(w.intensity))}
 
+def _run_onefield(c):
+    """a wavefront holding one (1,1) field at an offset, multiplied by a plane with default attributes"""
+    lentil = vlib.import_lentil()
+    from lentil.field import Field
+    w = lentil.Wavefront.empty(1e-6, shape=tuple(c['shape']), ptype=lentil.image)
+    w.data = [Field(np.array([[complex(*c['val'])]]), offset=list(c['off']))]
+    w2 = w * (lentil.Image() if c['plane'] == 'image' else lentil.Tilt(x=0, y=0))
+    return {'data': [fld_out(f, 'gi') for f in w2.data], 'shape': [int(x) for x in w2.shape]}
+
 def impl(c):
     lentil = vlib.import_lentil()
+    if c['kind'] == 'onefield':
+        try:
+            return _run_onefield(c)
+        except (ValueError, IndexError, TypeError) as e:
+            return {'exc': type(e).__name__, 'msg': str(e)[:200]}
     if c['kind'] == 'views0':
         try:
             return _run_views0(c)
@@ -644,7 +661,7 @@ def arr_req(a, mode):
 
 def requests(c, io):
     k = c['kind']
-    if k == 'views0': return []          # oracle-only: zero-dimensional data is outside the array model
+    if k in ('views0', 'onefield'): return []          # oracle-only
     if k == 'pchain':
         els = []
         for e in c['elements']:
@@ -735,7 +752,7 @@ def _field_box(fl):
     return (min(e[0] for e in es) - 1, max(e[1] for e in es) + 1, min(e[2] for e in es) - 1, max(e[3] for e in es) + 1)
 
 def compare(c, io, mo):
-    if c['kind'] == 'views0': return None
+    if c['kind'] in ('views0', 'onefield'): return None
     m = mo[0]
     k = c['kind']
     if 'exc' in io:
@@ -873,6 +890,13 @@ def _oracle_views0(c, io):
 
 def oracle(c, io):
     k = c['kind']
+    if k == 'onefield':
+        if 'exc' in io: return f"default plane on a one-sample field raised {io['exc']}"
+        want = [{'shape': [1, 1], 're': [c['val'][0]], 'im': [c['val'][1]], 'off': c['off']}]
+        box = _field_box(want)
+        if not np.array_equal(_canvas(io['data'], box, _np_arr), _canvas(want, box, _np_arr)):
+            return f"a plane with default attributes ({c['plane']}) changed a one-sample field at offset {c['off']}: {len(io['data'])} field(s) left"
+        return None
     if k == 'views0': return _oracle_views0(c, io)
     if k == 'pchain': return _oracle_pchain(c, io)
     if k == 'px':
@@ -941,7 +965,7 @@ def oracle(c, io):
     return None
 
 def shrink(c):
-    if c['kind'] in ('pchain', 'views0'): return
+    if c['kind'] in ('pchain', 'views0', 'onefield'): return
     if c['kind'] == 'chain':
         if len(c['planes']) > 1:
             for i in range(len(c['planes'])):
@@ -955,6 +979,8 @@ def shrink(c):
 # ------------------------------------------------------------------------------------------ known finding
 def matches_finding(kf, c, msg):
     """KF-C07-one-pixel-segment: the case contains a one-element phasor or intermediate field and the phasor statement fails"""
+    if kf.get('id') == 'KF-C07-one-pixel-segment' and c.get('kind') == 'onefield':
+        return c['off'] != [0, 0] and 'a plane with default attributes' in msg
     if kf.get('id') != 'KF-C07-one-pixel-segment' or c.get('kind') != 'chain': return False
     return has_one_element_field(c['planes']) and ('inside the mask' in msg or 'constant field' in msg)
 
